@@ -509,6 +509,9 @@ func ruleUTF8Sink(c *eng.Ctx) {
 				return
 			}
 			n++
+			if builtFromText(cv.X) {
+				return // a buffer of appended strings and encoded runes: text, not shown bytes
+			}
 			for _, r := range *cv.Referrers() {
 				switch x := r.(type) {
 				case ssa.CallInstruction:
@@ -531,6 +534,51 @@ func ruleUTF8Sink(c *eng.Ctx) {
 			c.Ok(R, fnName, fn.Pos(), fmt.Sprintf("%d raw conversions, all validated", n))
 		}
 	}
+}
+
+// builtFromText: the byte slice is a local buffer that only ever received whole strings (append(buf, s...)) and
+// UTF-8 encoded runes (utf8.AppendRune): the spelling of a strings.Builder with a plain slice.
+func builtFromText(v ssa.Value) bool {
+	seen := map[ssa.Value]bool{}
+	var ok func(v ssa.Value) bool
+	ok = func(v ssa.Value) bool {
+		if seen[v] {
+			return true
+		}
+		seen[v] = true
+		switch x := v.(type) {
+		case *ssa.Const:
+			return x.IsNil()
+		case *ssa.Phi:
+			for _, e := range x.Edges {
+				if !ok(e) {
+					return false
+				}
+			}
+			return true
+		case *ssa.Call:
+			switch eng.CalleeName(x) {
+			case "builtin:append":
+				if len(x.Call.Args) != 2 || !ok(x.Call.Args[0]) {
+					return false
+				}
+				src := x.Call.Args[1]
+				if bt, isB := src.Type().Underlying().(*types.Basic); !isB || bt.Info()&types.IsString == 0 {
+					return false
+				}
+				if cv, isConv := src.(*ssa.Convert); isConv {
+					if _, fromSlice := cv.X.Type().Underlying().(*types.Slice); fromSlice {
+						return false
+					}
+				}
+				return true
+			case "unicode/utf8.AppendRune":
+				return ok(x.Call.Args[0])
+			}
+		}
+		return false
+	}
+	return ok(v)
 }
 
 func ruleCMapDest(c *eng.Ctx) {
